@@ -134,7 +134,8 @@ typedef struct {
                             non-NULL flat: low window flat, the rest paged ('hybrid') */
 
     int mem_error;            /* set when garbage_stop fired */
-    uint64_t error_bit_address;
+    uint64_t error_word_address; /* the error bit-address is (word << ww) + offset - at w=64 it */
+    uint64_t error_bit_offset;   /* can reach 2^64, so it is kept split and joined as a python int */
 
     /* jump-target speculation measurement (FLIPJUMP_MEASURE_SPECULATION=1):
        per executed op, would a "last jump target per ip" predictor have missed? */
@@ -295,7 +296,8 @@ static inline int access_check(MemoryObject* m, Page* page, uint64_t word_addres
         return 1;
     }
     m->mem_error = 1;
-    m->error_bit_address = word_address << m->ww;
+    m->error_word_address = word_address;
+    m->error_bit_offset = 0;
     return 0;
 }
 
@@ -305,7 +307,8 @@ static inline int flat_garbage(MemoryObject* m, uint64_t word_address)
         return 1; /* continue-mode reads 0 (flat mode requires garbage_stop, but be safe) */
     }
     m->mem_error = 1;
-    m->error_bit_address = word_address << m->ww;
+    m->error_word_address = word_address;
+    m->error_bit_offset = 0;
     return 0;
 }
 
@@ -436,7 +439,8 @@ static inline int mem_get_word_unaligned(MemoryObject* m, uint64_t bit_address, 
         /* an unaligned read whose high word would wrap past the top of the address space -
            the python reference terminates with a memory error here */
         m->mem_error = 1;
-        m->error_bit_address = bit_address;
+        m->error_word_address = word_address;
+        m->error_bit_offset = bit_offset;
         return -1;
     }
     if (mem_read_word(m, word_address, &lsw) < 0) {
@@ -654,7 +658,8 @@ static int Memory_init(PyObject* op, PyObject* args, PyObject* kwds)
     self->storage_decided = 0;
     self->flat_covers_all = 0;
     self->mem_error = 0;
-    self->error_bit_address = 0;
+    self->error_word_address = 0;
+    self->error_bit_offset = 0;
     self->spec_measured = 0;
     self->spec_ops = 0;
     self->spec_first = 0;
@@ -952,8 +957,10 @@ static int run_measured_loop(MemoryObject* self, PyObject* read_bit, PyObject* w
             goto memory_error;
         }
 
-        /* read jump word (after the flip - the flip may modify it) */
-        if (mem_get_word_unaligned(self, ip + width, &j) < 0) {
+        /* read jump word (after the flip - the flip may modify it). an aligned op reads it by
+           word-address: at w=64 ip + width wraps for an op on the last word of the address space */
+        if ((ip & (width - 1)) ? mem_get_word_unaligned(self, ip + width, &j) < 0
+                               : mem_read_word(self, (ip >> ww) + 1, &j) < 0) {
             goto memory_error;
         }
         ops++;
@@ -1176,7 +1183,10 @@ static FJ_ALWAYS_INLINE int run_flat_loop_impl(MemoryObject* self, PyObject* rea
         goto flip_value_ready;
 
     cold_jump_word_slow:
-        if (mem_get_word_unaligned(self, ip + width, &cold_word) < 0) {
+        /* an aligned op reads it by word-address: at w=64 ip + width wraps for an op on the last
+           word of the address space */
+        if ((ip & bit_mask) ? mem_get_word_unaligned(self, ip + width, &cold_word) < 0
+                            : mem_read_word(self, (ip >> ww) + 1, &cold_word) < 0) {
             goto memory_error;
         }
         j = cold_word;
@@ -1580,7 +1590,16 @@ static PyObject* build_run_result(MemoryObject* self, int cause, uint64_t ops, u
     }
     (void)ops;
     if (cause == TERM_MEMORY_ERROR) {
-        error_address = PyLong_FromUnsignedLongLong(self->error_bit_address);
+        /* (word << ww) + offset, as an unbounded python int */
+        PyObject* error_word = PyLong_FromUnsignedLongLong(self->error_word_address);
+        PyObject* word_shift = PyLong_FromLong(self->ww);
+        PyObject* bit_offset = PyLong_FromUnsignedLongLong(self->error_bit_offset);
+        PyObject* word_bit_address = (error_word && word_shift) ? PyNumber_Lshift(error_word, word_shift) : NULL;
+        error_address = (word_bit_address && bit_offset) ? PyNumber_Add(word_bit_address, bit_offset) : NULL;
+        Py_XDECREF(error_word);
+        Py_XDECREF(word_shift);
+        Py_XDECREF(bit_offset);
+        Py_XDECREF(word_bit_address);
     } else {
         error_address = Py_None;
         Py_INCREF(Py_None);
